@@ -664,12 +664,12 @@ func TestC16Termination(t *testing.T) {
 			store := ebu.NewMemoryStore()
 			bus := ebu.New(ebu.WithStore(store))
 			var wg sync.WaitGroup
-			fired := false
+			fires := 0 // (the first step queues a registry change every time it is called, up to 40 times)
 			for k, e := range [][2]string{{"A", "B"}, {"B", "C"}, {"C", "D"}} {
 				k, e := k, e
 				ebu.RegisterUpcastFunc(bus, e[0], e[1], func(d json.RawMessage) (json.RawMessage, string, error) {
-					if k == 0 && !fired {
-						fired = true
+					if k == 0 && fires < 40 {
+						fires++
 						started := make(chan struct{})
 						wg.Add(1)
 						go func() {
@@ -699,8 +699,8 @@ func TestC16Termination(t *testing.T) {
 			err := bus.ReplayWithUpcast(context.Background(), ebu.OffsetOldest, func(e *ebu.StoredEvent) error { types = append(types, e.Type); return nil })
 			wg.Wait()
 			dog.Tick()
-			if err != nil || fmt.Sprint(types) != "[D]" {
-				run.Violation("upcast-apply:chain-with-queued-registry-change", fmt.Sprintf("%s: replay returned %v and delivered %v (want [D])", cur, err, types), nil)
+			if err != nil || fmt.Sprint(types) != "[D]" || fires > 3 {
+				run.Violation("upcast-apply:chain-with-queued-registry-change", fmt.Sprintf("%s: replay returned %v and delivered %v (want [D]); the first step of the chain was run %d times for one stored event", cur, err, types, fires), nil)
 			}
 			run.Case(cur, true)
 		}
@@ -775,6 +775,11 @@ func TestC16Termination(t *testing.T) {
 					calls++
 					if calls > budget {
 						return nil, "", errBudget
+					}
+					if idx%2 == 0 {
+						// (every other case: an upcaster that stamps the payload it hands on - a hop
+						// counter - so that no two payloads of a run are the same)
+						return json.RawMessage(fmt.Sprintf(`{"hops":%d}`, calls)), ret, nil
 					}
 					return d, ret, nil
 				}); err != nil {
